@@ -668,6 +668,8 @@ def scenarios(pid, tier):
         for ct in (["h11", "h2alpn"] if quick else ["h11", "h11tls", "h2alpn", "h2exp11", "fwd", "tunnel", "socks"]):
             out.append(S(ct, ["req:a:v", "req:a"], max_connections=1, cancels=1, styles=["scope", "native"]))
             out.append(S(ct, ["req:a", "req:b"], max_connections=1, faults=1))
+            # the victim is handed an established, re-used connection (cancellation at the checkpoints before it owns it)
+            out.append(S(ct, ["req:a:w", "req:a:v", "req:a:late"], max_connections=1, cancels=1, styles=["scope", "native"]))
         if pid == "C01":
             # HTTP/2 multiplexing with the server interleaving HEADERS/DATA of different streams in every order,
             # on one connection and on two connections whose stream ids coincide
@@ -714,6 +716,9 @@ def scenarios(pid, tier):
             # history: idle connections that expire together are retired in one pass while the victim is cancelled
             out.append(S(ct, ["req:a:w", "req:b:w", "req:c:v"], max_connections=3, keepalive_expiry=5.0, tick=6.0, cancels=1, styles=["scope", "native"]))
             out.append(S(ct, ["req:a:w", "req:b"], max_connections=2, keepalive_expiry=5.0, tick=6.0))
+            if ct in ("h11", "h2alpn", "tunnel", "socks") or not quick:
+                # the victim is handed an established, re-used connection
+                out.append(S(ct, ["req:a:w", "req:a:v", "req:a:late"], max_connections=1, cancels=1, styles=["scope", "native"]))
             if scen.CONN_TYPES[ct]["proxy"] in ("http", "https") and scen.CONN_TYPES[ct]["scheme"] == "https":
                 # proxy refuses the CONNECT: the tunnel connection closes the proxy connection itself
                 out.append(S(ct, ["req:a:v"], max_connections=1, cancels=1, styles=["scope", "native"], connect_status=403))
